@@ -315,4 +315,10 @@ def corpus():
         {'type': 'standard', 'radius': inf, 'thickness': 10.0, 'material': 'air', 'is_stop': True},
         {'type': 'standard', 'radius': 60.0, 'thickness': 5.0, 'material': ['glass', 'N-SF11', 'schott'], 'coating': [0.9, 0.05]},
         {'type': 'standard', 'radius': -90.0, 'thickness': 70.0, 'material': 'air'}]))
+    # even asphere with POSITIVE terms on the stop, oblique field: in a bundle that contains the vertex ray the
+    # batch-wide Newton stopping test is decided by the other rays (all residuals have one sign)
+    out.append(dict(base, name='asphere-positive', aperture=['EPD', 12.0], fields=[[0.0, 0.0, 0.0, 0.0], [12.0, 0.0, 0.0, 0.0]], surfaces=[
+        {'type': 'even_asphere', 'radius': 40.0, 'conic': 0.0, 'coefficients': [4e-5, 6e-8], 'thickness': 6.0,
+         'material': ['ideal', 1.6, 0.0], 'is_stop': True},
+        {'type': 'even_asphere', 'radius': -70.0, 'conic': 0.0, 'coefficients': [-3e-5], 'thickness': 50.0, 'material': 'air'}]))
     return out
